@@ -5,7 +5,37 @@ from . import core
 PROP = "C10"
 DRIVER = "drv_cont"
 LEAN_MODULES = ["MesaModel.Props.C10", "MesaModel.Props.C18Cont"]
-THEOREMS = []
+THEOREMS = [
+    "Mesa.Cont.C10_legacy_assignment_rule",
+    "Mesa.Cont.C10_exp_assignment_rule",
+    "Mesa.Cont.C10_wrap_is_periodic_image",
+    "Mesa.Cont.C10_legacy_positions_all_histories",
+    "Mesa.Cont.C10_legacy_frame",
+    "Mesa.Cont.C10_legacy_positions_inside",
+    "Mesa.Cont.C10_legacy_cache_coherent",
+    "Mesa.Cont.C10_exp_positions_all_histories",
+    "Mesa.Cont.C10_exp_index_maps_consistent",
+    "Mesa.Cont.C10_exp_positions_inside",
+    "Mesa.Cont.C10_legacy_neighbors_exact",
+    "Mesa.Cont.C10_legacy_neighbors_mem",
+    "Mesa.Cont.C10_exp_radius_exact",
+    "Mesa.Cont.C10_exp_distances_exact",
+    "Mesa.Cont.C10_exp_k_nearest",
+    "Mesa.Cont.C10_exp_k_nearest_range",
+    "Mesa.Cont.C10_argsortPart_spec",
+    "Mesa.Cont.C10_torus_axis_is_nearest_image",
+    "Mesa.Cont.C10_flat_axis_is_abs",
+    "Mesa.Cont.C10_legacy_distance_symmetric",
+    "Mesa.Cont.C10_legacy_heading_length",
+    "Mesa.Cont.C10_exp_distance_symmetric",
+    "Mesa.Cont.C10_exp_difference_length",
+    "Mesa.Cont.C18_cont_place_reject_unchanged",
+    "Mesa.Cont.C18_cont_move_reject_unchanged",
+    "Mesa.Cont.C18_cont_remove_reject_unchanged",
+    "Mesa.Cont.C18_cont_setpos_reject_unchanged",
+    "Mesa.Cont.C18_cont_legacy_rejected_call_erasable",
+    "Mesa.Cont.C18_cont_exp_rejected_call_erasable",
+]
 COUNTS = {"quick": 3000, "thorough": 60000}
 TRUSTED = [
     "coordinates/radii are ints in units of 1/64 of small magnitude: every + - * % abs min <= the code performs on them is exact in binary64; IEEE rounding of other floats is not modelled",
